@@ -366,6 +366,26 @@ func (fv *FV) applyModel(st *State, call *ast.CallExpr, callee *types.Func, sel 
 				// target *big.Int: the pointee is overwritten; the pointer itself stays as it was
 				nv := fv.fresh("unmarshalled", SInt)
 				fv.writePath(st, p, tIte(tEq(cur, T("bnil", SBig)), cur, bigMk(nv)), call.Pos())
+			case KOpaque:
+				// an interface value (holding a pointer): what it points to is overwritten; the interface keeps its dynamic
+				// type, a nil interface is refused (InvalidUnmarshalError)
+				nv := fv.fresh("unmarshalled", cur.Sort)
+				zero := Term{fv.ss.Zero(cur.Sort), cur.Sort}
+				dt := fv.ss.DynTypeFn(cur.Sort)
+				st.assume(T(sx("=", sx(dt, nv.S), sx(dt, cur.S)), SBool))
+				st.assume(tEq(tEq(nv, zero), tEq(cur, zero)))
+				for _, bp := range append([]boxPair(nil), fv.ss.boxPairs[cur.Sort.Name]...) {
+					if bp.from.Kind != KPtr || bp.goType == nil {
+						continue
+					}
+					_, un := fv.ss.BoxFn(bp.from, cur.Sort, bp.goType)
+					has := Term{sx("=", sx(dt, cur.S), fv.ss.StrConst("type:"+bp.tname)), SBool}
+					st.assume(tImp(has, tEq(tEq(Term{sx(un, nv.S), bp.from}, ptrNil(bp.from)), tEq(Term{sx(un, cur.S), bp.from}, ptrNil(bp.from)))))
+				}
+				fv.writePath(st, p, nv, call.Pos())
+				jerr := fv.fresh("jsonerr", SErr)
+				st.assume(tImp(tEq(cur, zero), tNot(tEq(jerr, T("err_nil", SErr)))))
+				return []Term{jerr}, true
 			default:
 				fv.note("json.Unmarshal into an opaque target: target not modelled")
 			}
